@@ -480,6 +480,9 @@ func (e *Engine) initIntrinsics() {
 	randIntn := func(p *Path, fn *ssa.Function, args []Value) Value {
 		n := args[len(args)-1].(*Term)
 		// (a fresh variable, not a harness input: native replay uses the real generator)
+		if p.eng.spec.RandFixed != nil && n.IsConst() && n.C > 0 {
+			return p.tt.Const(n.S.W, uint64(*p.eng.spec.RandFixed)%n.C) // stated restriction of the spec
+		}
 		if !n.IsConst() || n.C == 0 {
 			v := p.tt.Fresh("rand", BV(n.S.W))
 			p.addPC(p.tt.Ult(v, n))
